@@ -529,6 +529,36 @@ def run(only=None):
                 s.case(nontrivial=True, calls=5, outcome=code, sample=case if len(s.samples) < 1 else None)
         s.done()
 
+    if want("little_endian_storage"):
+        # a message is its bit string in index order, whatever the storage endianness of the bitarray holding it
+        s = rep.sub("little_endian_storage",
+                    "per codec: weight <= 1 messages + complements + seed words (+ all 2^11 for 32,11) supplied as bitarray(endian='little'): "
+                    "encode must equal the encoding of the same bit string stored big-endian; extractors on a little-endian codeword likewise")
+        for code, K_, enc_f, ext_fs in (
+            ("32_11", 11, lambda b: VBPTC3211.encode(b, True), (VBPTC3211.deinterleave_data_bits, VBPTC3211.deinterleave_all_bits)),
+            ("128_72", 72, VBPTC12873.encode, (VBPTC12873.deinterleave_data_bits, VBPTC12873.deinterleave_all_bits, VBPTC12873.deinterleave_cs5_bits)),
+            ("68_28", 28, VBPTC6828.encode, (VBPTC6828.deinterleave_data_bits, VBPTC6828.deinterleave_all_bits, VBPTC6828.deinterleave_crc8_bits)),
+        ):
+            msgs = spaces.small_scope_messages(K_, 1, extra=[env.det_bits(f"c09-le-{code}-{i}", K_) for i in range(6)])
+            if K_ == 11:
+                msgs = [format(v, "011b") for v in range(1 << 11)]
+            for m in msgs:
+                case = {"code": code, "message": m, "storage": "little-endian bitarray"}
+                try:
+                    big = enc_f(bitarray(m))
+                    lit = enc_f(bitarray(m, endian="little"))
+                    if lit.to01() != big.to01():
+                        s.violation(f"little_endian_message_encodes_differently:{code}", {**case, "big": big.to01(), "little": lit.to01()},
+                                    "the same bit string stored little-endian encodes to other bits")
+                    cw_l = bitarray(big.to01(), endian="little")
+                    for f in ext_fs:
+                        if f(cw_l).to01() != f(bitarray(big.to01())).to01():
+                            s.violation(f"little_endian_codeword_extracts_differently:{code}:{f.__name__}", case)
+                except Exception as e:
+                    s.violation("exception_little_endian:" + exc_sig(e), case, repr(e))
+                s.case(nontrivial=True, calls=2 + 2 * len(ext_fs), outcome=code, sample=case if len(s.samples) < 1 else None)
+        s.done()
+
     rep.bounds = {
         "32_11": "all 2^11 messages x both parities (complete)",
         "128_72": "weight <= " + ("3" if rep.thorough() else "2") + " + complements; all single-octet values at all positions on 3 backgrounds; "
